@@ -2,7 +2,7 @@
 """Core of the cproc verification machinery: snapshot/build pipeline, CBMC
 instance runner (with witness twins, back-end portfolio, caps), counterexample
 extraction + native replay, evidence writer.  See /verif/DESIGN.md section 2."""
-import hashlib, json, os, re, shutil, subprocess, sys, time, fcntl, glob, random
+import hashlib, json, os, re, shutil, subprocess, sys, time, fcntl, glob, random, threading
 from concurrent.futures import ThreadPoolExecutor
 
 VERIF = os.path.dirname(os.path.dirname(os.path.abspath(__file__)))
@@ -48,13 +48,16 @@ class Build:
                 self._build()
             else:
                 os.utime(os.path.join(self.dir, 'ok'))
+                os.utime(self.dir)
             self.info = json.load(open(os.path.join(self.dir, 'info.json')))
 
     def _gc(self):
         # keep scratch small: drop all but the 2 most recent builds and stale work dirs
+        # (a build another run may still be using - touched within the last 4 hours - is never removed)
         bs = sorted(glob.glob(SCRATCH + '/build-*'), key=lambda d: os.path.getmtime(d))
         for d in bs[:-2]:
-            shutil.rmtree(d, ignore_errors=True)
+            if time.time() - os.path.getmtime(d) > 4 * 3600:
+                shutil.rmtree(d, ignore_errors=True)
         for d in glob.glob(SCRATCH + '/work-*'):
             if time.time() - os.path.getmtime(d) > 6 * 3600:
                 shutil.rmtree(d, ignore_errors=True)
@@ -296,7 +299,13 @@ class Runner:
         t0 = time.time()
         full = ['/usr/bin/time', '-f', 'VERIF_RSS %M', 'timeout', '-k', '5', str(timeout), 'bash', '-c',
                 'ulimit -v %d; exec "$@"' % (mem_gb * 1024 * 1024), 'x'] + cmd
-        r = subprocess.run(full, capture_output=True, text=True, cwd=cwd, errors='replace')
+        # CBMC's SMT2 back end leaves smt2_dec_* files in TMPDIR when it is killed by the time limit: give every query its own TMPDIR
+        td = os.path.join(cwd, 'tmp%d' % os.getpid() + '_%d' % threading.get_ident())
+        os.makedirs(td, exist_ok=True)
+        try:
+            r = subprocess.run(full, capture_output=True, text=True, cwd=cwd, errors='replace', env=dict(os.environ, TMPDIR=td))
+        finally:
+            shutil.rmtree(td, ignore_errors=True)
         dt = time.time() - t0
         m = re.search(r'VERIF_RSS (\d+)', r.stderr)
         rss = int(m.group(1)) if m else 0
@@ -319,7 +328,7 @@ class Runner:
             if r.returncode in (0, 10) and res:
                 failed = [(pid, msg) for pid, line, msg, st in res if st == 'FAILURE']
                 last.update(status='PASS' if not failed else 'FAIL', nprops=len(res), failed=failed)
-                if any(st == 'UNKNOWN' for *_, st in res):
+                if not failed and any(st == 'UNKNOWN' for *_, st in res):      # a FAILURE is conclusive whatever else stayed undecided
                     last['status'] = 'INCONCLUSIVE'
                     last['detail'] = 'UNKNOWN results'
                     continue
